@@ -382,6 +382,21 @@ def run_case(case, rec):
         b.elements
     except Exception:
         pass
+    # derived structures are asked for (and decomposed: objects of their own for the monitor); afterwards the source
+    # must still answer with the decomposition of the structure it is
+    if pairs and int(core.chash(case)[2:4], 16) % 3 == 0:
+        for op in ("without_isolated", "without_pseudoknots"):
+            try:
+                getattr(b, op)().elements
+            except Exception:
+                pass
+        try:
+            again = b.elements
+        except Exception:
+            again = None
+        if again is not None:
+            rec.count("note:source-rejudged-after-derivation")
+            _post(mon2d.snapshot(b), again, None, (b,), {})
     # the same pairing with another sequence, decomposed in the same process
     if pairs and int(core.chash(case)[:2], 16) % 2 == 0:
         seq2 = "".join("UGCA"[(i * 7 + n) % 4] for i in range(n))
